@@ -3,6 +3,6 @@ EXTENDS MessageParse
 AllTypes   == Types
 QuickMuts  == {"insf", "dup", "swap", "bad", "del", "letter"}
 AllMuts    == {"insf", "dup", "swap", "bad", "del", "letter", "own"}
-AllModes   == {"sparse", "full", "cap", "overcap"}
+AllModes   == {"sparse", "full", "cofull", "cap", "overcap"}
 BaseModes  == {"sparse", "full"}
 =============================================================================
